@@ -69,7 +69,9 @@ def do_OP_2SWAP(stack: Any) -> None:
 
 
 def do_OP_IFDUP(stack: Any) -> None:
-    if stack[-1]:
+    # a VM decides truth as a script boolean (0x00 and 0x80 are false); a plain list uses bool
+    to_bool = getattr(stack, "bool_from_script_bytes", bool)
+    if to_bool(stack[-1]):
         stack.append(stack[-1])
 
 
